@@ -476,32 +476,39 @@ _alone = {}
 
 
 class CaseWatchdog(BaseException):
-    """the simulated case is still running after CASE_WALL seconds of wall time (a simulated run takes milliseconds)"""
+    """the simulated case is still running after CASE_CPU seconds of processor time / CASE_WALL seconds of wall time
+    (a simulated run takes milliseconds)"""
 
 
-CASE_WALL = 20.0
+CASE_CPU = 20.0       # processor time of this process (ITIMER_PROF): a loop that spins; independent of the machine's load
+CASE_WALL = 300.0     # wall time (ITIMER_REAL): something that blocks in a real system call
 
 
 def run_case(case):
     """no case may hang the check, whatever the code under test does: real-process scripts carry their own SIGALRM
-    watchdog, every simulated case runs under this one"""
+    watchdog, every simulated case runs under these two"""
     if case.get('kind') == 'real':
         import equalizer_real
         return equalizer_real.run_case(case)
     import signal
+    fired = []
 
     def on_alarm(signum, frame):
+        fired.append('%d s of processor time' % CASE_CPU if signum == signal.SIGPROF else '%d s of wall time' % CASE_WALL)
         raise CaseWatchdog()
-    old = signal.signal(signal.SIGALRM, on_alarm)
+    old = [signal.signal(signal.SIGALRM, on_alarm), signal.signal(signal.SIGPROF, on_alarm)]
     signal.setitimer(signal.ITIMER_REAL, CASE_WALL, 1.0)
+    signal.setitimer(signal.ITIMER_PROF, CASE_CPU, 1.0)
     try:
         return run_case_(case)
     except CaseWatchdog:
-        return {'watchdog': 'the simulated run did not end within %d s of wall time: parent or worker loops for ever '
-                            'without blocking in a multiprocessing call' % CASE_WALL}
+        return {'watchdog': 'the simulated run did not end within %s: parent or worker loops for ever without blocking '
+                            'in a multiprocessing call of the simulator' % fired[0]}
     finally:
         signal.setitimer(signal.ITIMER_REAL, 0)
-        signal.signal(signal.SIGALRM, old)
+        signal.setitimer(signal.ITIMER_PROF, 0)
+        signal.signal(signal.SIGALRM, old[0])
+        signal.signal(signal.SIGPROF, old[1])
         gc.collect()
 
 
